@@ -2,6 +2,7 @@ package verifrun
 
 import (
 	_ "verif/c01"
+	_ "verif/c02"
 	_ "verif/c03"
 	_ "verif/c04"
 )
